@@ -135,7 +135,7 @@ let dump nf b =
     let ct = String.concat "" (List.map (fun t -> bit (contains_term b.b_names t)) asr_) in
     let nf_ = String.concat "," (List.map (fun t -> match names_for_term b.b_names t with
         | None -> "-" | Some l -> "[" ^ String.concat " " (List.map nm l) ^ "]") asr_) in
-    let defs = String.concat "" (List.map (fun f -> bit (df_has b.b_defs (n_of_int f))) (range nf)) in
+    let defs = String.concat "" (List.map (fun f -> bit (df_has b.b_defs (n_of_int (100 + f)))) (range nf)) in
     Printf.sprintf "init=1 glob=%s lvl=%d asr=[%s] ins=%d cur=[%s] names=[%s] ct=%s nf=%s defs=%s decls=%d st=%s"
       (bit b.b_global) (int_of_nat (level b)) (String.concat " " (List.map tm asr_)) (int_of_nat b.b_inserted)
       (String.concat " " (List.map tm cur)) names ct nf_ defs (List.length b.b_decls)
